@@ -116,7 +116,8 @@ RandCases ==
   SetToSeq({ [op |-> o, stream |-> Cat([i \in 1..Len(FrCands[k]) |-> LE(FrCands[k][i], 32)]), src |-> "gen"] : o \in {"rand.zp", "rand.zpstar"}, k \in 1..Len(FrCands) })
   \o SetToSeq({ [op |-> "rand.fq", stream |-> Cat([i \in 1..Len(FqCands[k]) |-> LE(FqCands[k][i], 48)]), src |-> "gen"] : k \in 1..Len(FqCands) })
   \o SetToSeq({ [op |-> "rand.fq2", stream |-> Cat([i \in 1..Len(FqCands[k]) |-> LE(FqCands[k][i], 48)]), src |-> "gen"] : k \in 1..Len(FqCands) })
-  \o SetToSeq({ [op |-> "rand.powx", stream |-> s, src |-> "gen"] : s \in PowXStreams })
+  \o SetToSeq({ [op |-> o, stream |-> s, src |-> "gen"] : o \in {"rand.powx", "rand.zpstar_px"},
+                s \in PowXStreams \cup { Cat([i \in 1..4 |-> LE(Zero, 8)]) \o Cat([i \in 1..4 |-> LE(DigitsOf(v)[i], 8)]) \o Cat([i \in 1..4 |-> LE(One, 8)]) : v \in { One, Sub(RMod, One), ModN(Rnd(72), RMod) } } })
   \* the non-zero sampler: a first draw of zero (32 zero bytes), then a value; the decomposed form must follow the redraw
   \o SetToSeq({ [op |-> o, stream |-> Cat(<<LE(Zero, 32), LE(v, 32)>>), cls |-> "zero-first-draw", src |-> "gen"] : o \in {"rand.zpstar", "rand.zp"}, v \in { One, Sub(RMod, One), ModN(Rnd(71), RMod) } })
   \* long runs of rejected draws before the accepted one (the rejection loop has no bound: the n-th draw is as good as the first)
